@@ -1,7 +1,10 @@
+\* three-step plans: without AddUnknownChild/AddKnownSibling (largest fan-out; 680 286 behaviours and 11 min with them).
+\* Both are applied at every position as one-step moves and occur in the two-step plans.
 SPECIFICATION Spec
 CONSTANTS
   MaxMut = 3
   Depths = {1, 2, 3}
+  Alphabet = {"DeleteChild", "DuplicateChild", "SwapSiblings", "MoveUnderSibling", "Renamespace", "Rename", "MoveText", "DropAttr", "EmptyAttr", "HugeAttr", "NegativeAttr", "NonNumericAttr", "UnknownEnum", "Nest"}
   MaxNodes = 12
 ACTION_CONSTRAINT EmitBehaviour
 CHECK_DEADLOCK FALSE
